@@ -371,10 +371,8 @@ def RefinesIter (i : Nat) (top : Str) (rest : List (Nat × Str)) (x : Name) (vs 
 theorem rel_next {l σ E i top rest σ1 l1 v1} (hR : Rel l σ E) (hb : σ.bufs = (i, top) :: rest)
     (b : Bal i top rest σ σ1) (hv : VarsAgree l1 v1) : Rel l1 σ1 { E with vars := v1 } := by
   obtain ⟨w, hw⟩ := b.bufs
-  refine ⟨hv, by rw [b.loops]; exact hR.loops, by rw [hw, ← hR.nb, hb]; simp, by rw [b.frames]; exact hR.nf, ?_⟩
-  rcases b.next with h | h
-  · rw [h]; exact hR.next
-  · exact h
+  exact ⟨hv, by rw [b.loops]; exact hR.loops, by rw [hw, ← hR.nb, hb]; simp, by rw [b.frames]; exact hR.nf,
+    by rw [b.next]; exact hR.next⟩
 
 theorem LoopOK.seq_l {sc a b} (h : LoopOK sc (.seq a b)) : LoopOK sc a := by
   rcases h with h | h
